@@ -73,7 +73,7 @@ def run_tlc(
     meta = work / f"meta-{re.sub(r'[^A-Za-z0-9_.-]', '_', name)}-{os.getpid()}-{int(time.time()*1000)%100000}"
     cfg_path = Path(cfg) if os.path.isabs(cfg) else spec_dir / cfg
     cmd = [
-        "java", f"-Xmx{heap}", "-XX:+UseParallelGC", "-cp", _classpath(), "tlc2.TLC",
+        "java", f"-Xmx{heap}", "-Xss64m", "-XX:+UseParallelGC", "-cp", _classpath(), "tlc2.TLC",     # deep recursive operators over long traces
         "-workers", str(workers), "-metadir", str(meta), "-noGenerateSpecTE",
         "-config", str(cfg_path),
     ]
